@@ -542,6 +542,9 @@ fn main() {
         let ch = Change::from_bytes(raw).expect("change bytes");
         changes.insert(c["hash"].as_str().unwrap().to_string(), ch);
     }
+    // a document holding the whole history: the source of bundles (C18)
+    let mut full = Automerge::new().with_actor(enc::actor_from_num(98));
+    let _ = full.apply_changes(changes.values().cloned());
     let text = std::fs::read_to_string(&args[3]).expect("behaviours");
     let mut nb = 0usize;
     let mut nsteps = 0usize;
@@ -571,6 +574,28 @@ fn main() {
                         }
                         r
                     }
+                    "bundle" => {
+                        // the batch as one bundle chunk: its changes must come back byte for byte,
+                        // and loading it must act like applying them
+                        match full.bundle(batch.iter().map(|c| c.hash())) {
+                            Ok(b) => {
+                                let back = b.to_changes().map_err(|e| calls::err_name(&e));
+                                let want: BTreeSet<Vec<u8>> = batch.iter().map(|c| c.raw_bytes().to_vec()).collect();
+                                match back {
+                                    Ok(cs) => {
+                                        let got: BTreeSet<Vec<u8>> = cs.iter().map(|c| c.raw_bytes().to_vec()).collect();
+                                        if got != want {
+                                            Err("err:BundleChangesDiffer".to_string())
+                                        } else {
+                                            doc.load_incremental(b.bytes()).map(|_| ()).map_err(|e| calls::err_name(&e))
+                                        }
+                                    }
+                                    Err(e) => Err(format!("{}:to_changes", e)),
+                                }
+                            }
+                            Err(e) => Err(format!("{}:bundle", calls::err_name(&e))),
+                        }
+                    }
                     _ => {
                         let mut bytes = vec![];
                         for c in &batch {
@@ -579,9 +604,11 @@ fn main() {
                         doc.load_incremental(&bytes).map(|_| ()).map_err(|e| calls::err_name(&e))
                     }
                 };
+                let reslabel = match &res { Ok(()) => "ok".to_string(), Err(e) => e.clone() };
                 let applied: Vec<_> = doc.get_changes(&[]).iter().map(|c| c.hash()).collect();
                 json!({
                     "res": if res.is_ok() { "ok" } else { "err" },
+                    "reslabel": reslabel,
                     "applied": enc::hashes_sorted(&applied),
                     "queue": enc::hashes_sorted(&doc.verif_queued_hashes()),
                     "heads": enc::hashes_sorted(&doc.get_heads()),
